@@ -28,7 +28,7 @@ ANCHORS = ['manifest:ManifestFile.load', 'manifest:ManifestPathEntry.process_pat
            'manifest:ManifestEntryTIMESTAMP.from_list',
            'manifest:ManifestEntryDIST.from_list']
 REQUIRED = ['manifest:ManifestFile.load', 'manifest:ManifestPathEntry.decode_char',
-            'expect:reject', 'expect:accept']
+            'expect:reject', 'expect:accept', 'framed_texts']
 ASSUMPTIONS = ['texts are str (valid UTF-8); lines containing whitespace other than '
                'space/tab, armor-like lines, exotic integer syntax (+1, 1_0, -0, '
                'non-ASCII digits), surrogate escapes and non-padded timestamps are '
@@ -70,6 +70,7 @@ def units(tier, seed):
             for b in range(n):
                 u.append({'k': 'tok', 'L': L, 'first': [a, b]})
     u.append({'k': 'tok', 'L': 1 if tier == 'quick' else 1, 'first': []})
+    u.append({'k': 'framed', 'L': 3 if tier == 'quick' else 5})
     ngram, nmut = (400, 300) if tier == 'quick' else (15000, 15000)
     for i in range(ngram):
         u.append({'k': 'gram', 'i': i, 'n': 50})
@@ -219,9 +220,31 @@ def run_mut(u, ctx):
         ctx.sample(case, 'mutant')
 
 
+def run_framed(u, ctx):
+    """Entry lines inside a cleartext-signature frame (loaded without verification):
+    every body of up to L lines over {valid, dash-escaped valid, dash-escaped armor,
+    junk, blank} - nothing may be skipped or misread there either.  The framing
+    oracle is C04's (vf.model.cleartext)."""
+    import itertools
+    from vf.checks import c04
+    for L in range(1, u['L'] + 1):
+        for body in itertools.product('VDAJ_', repeat=L):
+            seq = 'B_' + ''.join(body) + 'SHE'
+            lines = [c04.line_for(c, i) for i, c in enumerate(seq)]
+            text = '\n'.join(lines) + '\n'
+            c04.judge_text(ctx, text, {'kind': 'text', 'text': text, 'framed': seq},
+                           enumerated=True, klass='framed')
+            ctx.count('framed_texts')
+
+
 def run_unit(u, ctx):
-    {'esc': run_esc, 'tok': run_tok, 'gram': run_gram, 'mut': run_mut}[u['k']](u, ctx)
+    {'esc': run_esc, 'tok': run_tok, 'gram': run_gram, 'mut': run_mut,
+     'framed': run_framed}[u['k']](u, ctx)
 
 
 def replay(case, ctx):
-    judge(ctx, case['text'], case)
+    if case.get('framed'):
+        from vf.checks import c04
+        c04.judge_text(ctx, case['text'], case, enumerated=False, klass='framed')
+    else:
+        judge(ctx, case['text'], case)
